@@ -187,14 +187,14 @@ Proof.
     rewrite statuses_app, forallb_app, H1. cbn. eapply IH; eassumption.
 Qed.
 
-(* an accepted Kill (the task was active, the executor did not crash) posts a final state *)
+(* an accepted Kill (the task was active and has its client, the executor is alive) posts a final state *)
 Lemma ckill_posts b s t s' o :
-  cinv s t -> c_crashed s = false ->
+  cinv s t -> c_crashed s = false -> c_rpc s = true ->
   cstep b s AKill = (s', o) -> has_crash o = false -> count_disc o = 0 ->
   cposted s' /\ statuses o = [].
 Proof.
-  intros (HP & HR & HI) Hcr HS HC HD. unfold cposted, pend_ok in *.
-  destruct s as [ph rpc act pend kpc tg proc gc dn cr]. cbn in HP, HR, HI, Hcr. subst cr.
+  intros (HP & HR & HI) Hcr Hrpc HS HC HD. unfold cposted, pend_ok in *.
+  destruct s as [ph rpc act pend kpc tg proc gc dn cr]. cbn in HP, HR, HI, Hcr, Hrpc. subst cr rpc.
   destruct ph; cbn in HI;
   repeat match goal with H : _ /\ _ |- _ => destruct H end; subst;
   cstep_cases HS; try discriminate;
@@ -204,22 +204,22 @@ Proof.
 Qed.
 
 Lemma ctl_killed_not_failed b l1 l2 s1 t1 s2 o s3 t3 :
-  crun b cinit l1 = (s1, t1) -> c_crashed s1 = false ->
+  crun b cinit l1 = (s1, t1) -> c_crashed s1 = false -> c_rpc s1 = true ->
   cstep b s1 AKill = (s2, o) -> has_crash o = false -> count_disc o = 0 ->
   crun b s2 l2 = (s3, t3) ->
   forallb is_fk (statuses (o ++ t3)) = true.
 Proof.
-  intros H1 Hcr HK HC HD H2.
-  destruct (ckill_posts b s1 t1 s2 o (cinv_reach _ _ _ _ H1) Hcr HK HC HD) as [HQ Ho].
+  intros H1 Hcr Hrpc HK HC HD H2.
+  destruct (ckill_posts b s1 t1 s2 o (cinv_reach _ _ _ _ H1) Hcr Hrpc HK HC HD) as [HQ Ho].
   rewrite statuses_app, Ho. cbn. eapply cposted_run; eassumption.
 Qed.
 
 (* ---------- crashes ---------- *)
 Definition ck_ok (s : cst) : Prop :=
   c_crashed s = false /\ (c_phase s = CPoll -> c_rpc s = true).
-(* Kill arrives when the task is not (any more) active, or is up and has not been killed yet *)
+(* Kill does not arrive during the start-up poll of an active task *)
 Definition kill_safe (s : cst) : Prop :=
-  c_active s = false \/ (c_rpc s = true /\ c_phase s = CWait).
+  c_active s = false \/ c_phase s <> CPoll.
 
 Lemma ck_ok_step b s a s' o :
   ck_ok s -> (a = AKill -> kill_safe s) -> cstep b s a = (s', o) ->
@@ -229,7 +229,7 @@ Proof.
   destruct s as [ph rpc act pend kpc tg proc gc dn cr]. cbn in Hc, Hp, Hk. subst cr.
   destruct a.
   2: { (* AKill *)
-    destruct (Hk eq_refl) as [Ha|[Ha Hb]]; subst;
+    destruct (Hk eq_refl) as [Ha|Ha]; subst;
     cstep_cases HS; (split; [split; [reflexivity|intro; first [congruence|auto]]|reflexivity]). }
   all: destruct ph; try (rewrite (Hp eq_refl) in * );
     cstep_cases HS;
@@ -263,15 +263,24 @@ Qed.
 
 Definition nbeh : beh := mkBeh (DExit 0) false false true None false.
 
-Lemma ctl_crash_kill_before_dial :
-  has_crash (snd (crun nbeh cinit [ALaunch; AKill])) = true.
-Proof. vm_compute. reflexivity. Qed.
+(* KILL before the dial returned: refused (no crash any more), the task goes on starting *)
+Lemma ctl_kill_before_dial_refused :
+  let '(s, t) := crun nbeh cinit [ALaunch; AKill] in
+  t = [] /\ c_crashed s = false /\ c_active s = false /\ is_run (c_proc s) = true.
+Proof. vm_compute. repeat split; reflexivity. Qed.
 Lemma ctl_crash_kill_during_poll :
   has_crash (snd (crun nbeh cinit [ALaunch; ADialOk; APollTick; AKill; APollTick])) = true.
 Proof. vm_compute. reflexivity. Qed.
-Lemma ctl_crash_second_kill :
-  has_crash (snd (crun nbeh cinit [ALaunch; ADialOk; APollReady; AKill; AKill])) = true.
-Proof. vm_compute. reflexivity. Qed.
+(* a KILL that finds no client (a Kill is under way): no crash, nothing sent, only the task dropped *)
+Lemma ctl_second_kill_harmless b s s' o :
+  c_crashed s = false -> c_rpc s = false -> cstep b s AKill = (s', o) ->
+  has_crash o = false /\ sigs o = [] /\ statuses o = [] /\ c_crashed s' = false /\
+  c_kpc s' = c_kpc s /\ c_pending s' = c_pending s /\ c_proc s' = c_proc s /\ c_gc s' = c_gc s /\
+  c_phase s' = c_phase s /\ c_active s' = false.
+Proof.
+  intros Hc Hr HS. destruct s as [ph rpc act pend kpc tg proc gc dn cr]. cbn in Hc, Hr. subst cr rpc.
+  cstep_cases HS; repeat split; try reflexivity; destruct act; (reflexivity || discriminate).
+Qed.
 
 (* ---------- the TERM / INT / KILL escalation is bounded ---------- *)
 Definition rank (k : kpc) : nat :=
@@ -385,42 +394,61 @@ Qed.
 
 (* an accepted Kill of a task that is up starts the escalation (or finds the process gone) *)
 Lemma ckill_starts_escalation b s t s' o :
-  cinv s t -> c_crashed s = false -> c_phase s = CWait ->
+  cinv s t -> c_crashed s = false -> c_phase s = CWait -> c_rpc s = true ->
   cstep b s AKill = (s', o) -> has_crash o = false -> count_disc o = 0 ->
   esc_ok s' /\ waited o = 0 /\
   (sigs o = [] /\ c_kpc s' = KDone \/ sigs o = [TERM] /\ c_kpc s' = KInt \/
    sigs o = [] /\ c_kpc s' = KFin).
 Proof.
-  intros (HP & HR & HI) Hcr Hph HS HC HD. unfold esc_ok, pend_ok in *.
-  destruct s as [ph rpc act pend kpc tg proc gc dn cr]. cbn in HP, HR, HI, Hcr, Hph. subst cr ph.
+  intros (HP & HR & HI) Hcr Hph Hrpc HS HC HD. unfold esc_ok, pend_ok in *.
+  destruct s as [ph rpc act pend kpc tg proc gc dn cr]. cbn in HP, HR, HI, Hcr, Hph, Hrpc. subst cr ph rpc.
   cstep_cases HS; try discriminate;
-  try (exfalso; assert (rpc = false) by (apply HR; congruence); subst; discriminate).
+  try (exfalso; assert (true = false) by (apply HR; congruence); discriminate).
   all: try ((split; [split; [reflexivity|split; [left; reflexivity|first [left; discriminate|right; split; [reflexivity|destruct proc; try discriminate; reflexivity]]]]|]);
   (split; [reflexivity|]); auto).
 Qed.
 
-(* the forked child of the device: the escalation signals the reported pid, not the group *)
-Lemma ctl_gc_false_step b s a s' o :
-  bh_fork b = false -> c_gc s = false -> cstep b s a = (s', o) -> c_gc s' = false.
+(* the forked child of the device: when Kill returns it has swept the process group (C17-g) *)
+Definition not_reaped (p : pstate) : Prop := match p with PReaped _ => False | _ => True end.
+Definition gc_inv (s : cst) : Prop :=
+  (c_kpc s = KFin -> c_gc s = false) /\
+  (c_tgt s = ToGroup -> c_phase s = CEnd /\ not_reaped (c_proc s)) /\
+  match c_phase s with CWait | CEnd => True | _ => not_reaped (c_proc s) end.
+
+Lemma gc_inv_step b s a s' o : gc_inv s -> cstep b s a = (s', o) -> gc_inv s'.
 Proof.
-  intros Hf Hg HS. destruct s as [ph rpc act pend kpc tg proc gc dn cr]. cbn in Hg. subst gc.
-  cstep_cases HS; try reflexivity; try assumption.
+  intros (H1 & H2 & H3) HS. unfold gc_inv, not_reaped in *.
+  destruct s as [ph rpc act pend kpc tg proc gc dn cr]. cbn in H1, H2, H3.
+  destruct tg.
+  - cstep_cases HS; try contradiction;
+    (split; [first [exact H1|reflexivity|discriminate|intro; discriminate|auto]
+            |split; [first [exact H2|intro; discriminate|intro; split; [reflexivity|exact I]|auto]
+                    |first [exact H3|exact I|auto]]]).
+  - destruct (H2 eq_refl) as [Hp Hn]. subst ph.
+    cstep_cases HS; try contradiction;
+    try (exfalso; destruct proc; (discriminate || contradiction));
+    (split; [first [exact H1|reflexivity|discriminate|intro; discriminate|auto]
+            |split; [first [exact H2|intro; discriminate|intro; split; [reflexivity|exact I]|auto]
+                    |first [exact H3|exact I|auto]]]).
 Qed.
 
-Lemma ctl_gc_false b l : forall s,
-  bh_fork b = false -> c_gc s = false -> c_gc (fst (crun b s l)) = false.
+Lemma ctl_no_survivor b l : forall s,
+  gc_inv s -> gc_inv (fst (crun b s l)).
 Proof.
-  induction l as [|a l IH]; intros s Hf Hg; cbn; [exact Hg|].
+  induction l as [|a l IH]; intros s HG; cbn; [exact HG|].
   destruct (cstep b s a) as [s1 o1] eqn:E1.
-  specialize (IH s1 Hf (ctl_gc_false_step _ _ _ _ _ Hf Hg E1)).
+  specialize (IH s1 (gc_inv_step _ _ _ _ _ HG E1)).
   destruct (crun b s1 l). exact IH.
 Qed.
 
+Lemma gc_inv_init : gc_inv cinit.
+Proof. split; [|split]; [intro H; discriminate H|intro H; discriminate H|exact I]. Qed.
+
 Definition fbeh : beh := mkBeh (DExit 0) true true true None false.
-Lemma ctl_kill_leaves_forked_child :
+Lemma ctl_kill_sweeps_forked_child :
   let '(s, t) := crun fbeh cinit [ALaunch; ADialOk; APollReady; AKill; AKillStep; AKillStep; AKillStep] in
   c_crashed s = false /\ c_kpc s = KFin /\ sigs t = [TERM; INT; KILL9] /\
-  is_run (c_proc s) = false /\ c_gc s = true.
+  is_run (c_proc s) = false /\ c_gc s = false.
 Proof. vm_compute. repeat split; reflexivity. Qed.
 
 (* ====================================================================================== *)
@@ -446,47 +474,59 @@ Ltac bfun_cases :=
          | |- context [if ?x then _ else _] => destruct x eqn:?
          end.
 
-Lemma stop_kill_part_core s :
-  core3 (fst (stop_kill_part s)) = core3 s /\ statuses (snd (stop_kill_part s)) = [].
-Proof. unfold stop_kill_part. bfun_cases; cbn; split; reflexivity. Qed.
-
-Lemma stop_push_core s :
-  core3 (fst (stop_push s)) = core3 s /\ statuses (snd (stop_push s)) = [].
+(* ensureBasicTaskKilled: never blocks, crashes only without the nil test, reports nothing *)
+Lemma ensure_killed_facts s :
+  let '(s1, o) := ensure_killed s in
+  core3 s1 = core3 s /\ statuses o = [] /\ b_blocked s1 = b_blocked s /\ b_cmd s1 = b_cmd s /\
+  (b_crashed s = false -> b_crashed s1 = false /\ has_crash o = false).
 Proof.
-  unfold stop_push. destruct (b_pending s).
-  - split; reflexivity.
-  - destruct (stop_kill_part_core (set_pending s (Some KILLED))) as [A B]. split; assumption.
+  unfold ensure_killed. rewrite stop_guards_nil.
+  destruct s as [la ac tm cmd ch pe bl cr]; cbn.
+  destruct cmd as [i|]; [|auto 10].
+  destruct (nth_error ch i) as [[st gc]|]; [|auto 10].
+  destruct st, pe; cbn; auto 10.
 Qed.
 
-Lemma stop_basic_core s :
-  core3 (fst (stop_basic s)) = core3 s /\ statuses (snd (stop_basic s)) = [].
+Lemma stop_basic_facts s :
+  let '(s1, o) := stop_basic s in
+  core3 s1 = core3 s /\ statuses o = [] /\ b_blocked s1 = b_blocked s /\
+  (b_crashed s = false -> b_crashed s1 = false /\ has_crash o = false).
 Proof.
-  unfold stop_basic. bfun_cases; try (split; reflexivity); apply stop_push_core.
+  unfold stop_basic. pose proof (ensure_killed_facts s) as H.
+  destruct (ensure_killed s) as [s1 o]. destruct H as (A & B & C & _ & D).
+  destruct (b_crashed s1) eqn:E.
+  - split; [exact A|]. split; [exact B|]. split; [exact C|]. intro Hc. destruct (D Hc); congruence.
+  - split; [exact A|]. split; [rewrite statuses_app, B; reflexivity|]. split; [exact C|].
+    intro Hc. destruct (D Hc) as [_ Hx]. split; [first [reflexivity|exact E]|]. rewrite has_crash_app, Hx. reflexivity.
 Qed.
 
-Lemma breq_core b hook s r :
-  core3 (fst (breq b hook s r)) = core3 s /\ statuses (snd (breq b hook s r)) = [].
+Lemma breq_facts b hook s r :
+  let '(s1, o) := breq b hook s r in
+  core3 s1 = core3 s /\ statuses o = [] /\ b_blocked s1 = b_blocked s /\
+  (b_crashed s = false -> b_crashed s1 = false /\ has_crash o = false).
 Proof.
-  unfold breq. bfun_cases; try (split; reflexivity); apply stop_basic_core.
+  unfold breq. destruct (negb (b_active s)); [cbn; auto|].
+  destruct r; try (destruct hook); cbn; auto; apply stop_basic_facts.
 Qed.
 
-Lemma breap_core s i :
-  core3 (fst (breap s i)) = core3 s /\ statuses (snd (breap s i)) = [].
+Lemma breap_facts s i :
+  let '(s1, o) := breap s i in
+  core3 s1 = core3 s /\ statuses o = [] /\ b_blocked s1 = b_blocked s /\
+  (b_crashed s = false -> b_crashed s1 = false /\ has_crash o = false).
 Proof.
-  unfold breap. bfun_cases; try (split; reflexivity).
-  match goal with H : stop_kill_part ?x = _ |- _ =>
-    destruct (stop_kill_part_core x) as [A B]; rewrite H in A, B end.
-  cbn in *. split; assumption.
+  unfold breap. destruct (nth_error (b_children s) i) as [[[|d|d] gc]|]; cbn; auto.
+  destruct (b_pending s); cbn; auto.
 Qed.
 
-(* what has been reported so far, as a function of (launched, active, timer armed) *)
+(* what has been reported so far, as a function of (launched, active, timer armed):
+   KILL stops the timer, so "killed with the timer armed" does not exist *)
 Definition binv (s : bst) (t : list out) : Prop :=
   match core3 s with
   | (false, a, tm) => a = false /\ tm = false /\ statuses t = []
   | (true, true, true) => statuses t = []
-  | (true, false, true) => statuses t = [FINISHED]
+  | (true, false, true) => False
   | (true, true, false) => statuses t = [RUNNING]
-  | (true, false, false) => statuses t = [RUNNING; FINISHED] \/ statuses t = [FINISHED; RUNNING]
+  | (true, false, false) => statuses t = [FINISHED] \/ statuses t = [RUNNING; FINISHED]
   end.
 
 Lemma binv_step b hook s t a s' o :
@@ -494,28 +534,38 @@ Lemma binv_step b hook s t a s' o :
 Proof.
   intros HI HS. unfold binv in *. rewrite statuses_app.
   destruct a;
-  try (destruct (breq_core b hook s r) as [A B]);
-  try (destruct (breap_core s i) as [A B]);
-  destruct s as [la ac tm cmd ch pe bl cr]; unfold bstep in HS; cbn in HS, HI;
-  (destruct cr; [inv HS; cbn; rewrite app_nil_r; exact HI|]);
+  try (pose proof (breq_facts b hook s r) as HF);
+  try (pose proof (breap_facts s i) as HF);
+  try (pose proof (ensure_killed_facts s) as HF);
+  unfold bstep in HS;
+  (destruct (b_crashed s) eqn:Ecr; [inv HS; cbn; rewrite app_nil_r; exact HI|]);
   try (inv HS; cbn; rewrite app_nil_r; exact HI).
   - (* ALaunch *)
-    destruct la; inv HS; cbn; rewrite ?app_nil_r; [exact HI|].
-    destruct HI as (_ & _ & HI). exact HI.
+    unfold core3 in *. destruct (b_launched s) eqn:EL; inv HS; cbn; rewrite ?app_nil_r.
+    + rewrite EL. exact HI.
+    + destruct HI as (_ & _ & HI). exact HI.
   - (* AKill *)
-    destruct ac; inv HS; cbn; rewrite ?app_nil_r; [|exact HI].
-    destruct la; [|destruct HI; discriminate].
-    destruct tm; rewrite HI; cbn; auto.
+    destruct (b_active s) eqn:EA; [|inv HS; cbn; rewrite app_nil_r; exact HI].
+    assert (HX : exists s1 o1, (if hook then (s, []) else ensure_killed s) = (s1, o1) /\
+                 core3 s1 = core3 s /\ statuses o1 = [] /\ b_crashed s1 = false).
+    { destruct hook.
+      - exists s, []. auto.
+      - destruct (ensure_killed s) as [s1 o1]. exists s1, o1.
+        destruct HF as (A & B & _ & _ & D). destruct (D eq_refl). auto. }
+    destruct HX as (s1 & o1 & E & A & B & C). rewrite E, C in HS. inv HS.
+    unfold core3 in *. inversion A as [[A1 A2 A3]]. cbn. rewrite statuses_app, B, A1. cbn.
+    rewrite EA in HI. destruct (b_launched s); [|destruct HI; discriminate].
+    destruct (b_timer s); rewrite HI; cbn; auto.
   - (* AReq *)
-    rewrite HS in A, B. cbn in A, B. rewrite A, B, app_nil_r. exact HI.
+    rewrite HS in HF. destruct HF as (A & B & _). rewrite A, B, app_nil_r. exact HI.
   - (* ATimer *)
-    destruct tm; inv HS; cbn; rewrite ?app_nil_r; [|exact HI].
-    destruct la; [|destruct HI as (_ & HI & _); discriminate].
-    destruct ac; rewrite HI; cbn; auto.
+    unfold core3 in *. destruct (b_timer s) eqn:ET; inv HS; cbn; rewrite ?app_nil_r; [|rewrite ET; exact HI].
+    destruct (b_launched s); [|destruct HI as (_ & HI & _); discriminate].
+    destruct (b_active s); [|contradiction]. rewrite HI; reflexivity.
   - (* AExit *)
-    destruct (nth_error ch i) as [[[] gc]|]; inv HS; cbn; rewrite app_nil_r; exact HI.
+    destruct (nth_error (b_children s) i) as [[[] gc]|]; inv HS; cbn; rewrite app_nil_r; exact HI.
   - (* AReap *)
-    rewrite HS in A, B. cbn in A, B. rewrite A, B, app_nil_r. exact HI.
+    rewrite HS in HF. destruct HF as (A & B & _). rewrite A, B, app_nil_r. exact HI.
 Qed.
 
 Lemma binv_reach b hook l s t : brun b hook binit l = (s, t) -> binv s t.
@@ -527,15 +577,15 @@ Qed.
 
 Definition is_rf (x : status) : bool := match x with RUNNING | FINISHED => true | _ => false end.
 
-(* at most one terminal status, whatever the schedule; and it is never FAILED *)
-Lemma basic_at_most_one_terminal b hook l s t :
+(* at most one terminal status and nothing after it, whatever the schedule; never FAILED *)
+Lemma basic_one_terminal b hook l s t :
   brun b hook binit l = (s, t) ->
-  (count_terminal (statuses t) <= 1)%nat /\ forallb is_rf (statuses t) = true.
+  status_ok (statuses t) = true /\ forallb is_rf (statuses t) = true.
 Proof.
   intro HR. pose proof (binv_reach _ _ _ _ _ HR) as HI. unfold binv in HI.
-  destruct (core3 s) as [[[] []] []];
+  destruct (core3 s) as [[[] []] []]; try contradiction;
     repeat match goal with H : _ /\ _ |- _ => destruct H | H : _ \/ _ |- _ => destruct H end;
-    match goal with H : statuses t = _ |- _ => rewrite H end; cbn; split; (lia || reflexivity).
+    match goal with H : statuses t = _ |- _ => rewrite H end; cbn; split; reflexivity.
 Qed.
 
 (* a terminal status is reported only in answer to KILL: the reaper of a basic or hook task
@@ -549,10 +599,12 @@ Proof.
   intros HS Ha. unfold bstep in HS. destruct (b_crashed s); [inv HS; reflexivity|].
   destruct a; try congruence; try (inv HS; reflexivity).
   - destruct (b_launched s); inv HS; reflexivity.
-  - destruct (breq_core b hook s r) as [_ B]. rewrite HS in B. cbn in B. rewrite B. reflexivity.
+  - pose proof (breq_facts b hook s r) as HF. rewrite HS in HF. destruct HF as (_ & B & _).
+    rewrite B. reflexivity.
   - destruct (b_timer s); inv HS; reflexivity.
   - destruct (nth_error (b_children s) i) as [[[] gc]|]; inv HS; reflexivity.
-  - destruct (breap_core s i) as [_ B]. rewrite HS in B. cbn in B. rewrite B. reflexivity.
+  - pose proof (breap_facts s i) as HF. rewrite HS in HF. destruct HF as (_ & B & _).
+    rewrite B. reflexivity.
 Qed.
 
 Lemma basic_terminal_only_on_kill b hook l : forall s,
@@ -566,259 +618,150 @@ Proof.
   rewrite statuses_app, existsb_app, IH, (bstep_status_only_kill _ _ _ _ _ _ E1 Ha). reflexivity.
 Qed.
 
-(* "nothing after the terminal status" fails: KILL within the 200 ms before the RUNNING timer *)
-Lemma basic_status_after_terminal :
-  statuses (snd (brun nbeh false binit [ALaunch; AKill; ATimer])) = [FINISHED; RUNNING].
+(* the old witness of "a status after the terminal one" (C17-c): KILL stops the timer *)
+Lemma basic_kill_before_timer :
+  statuses (snd (brun nbeh false binit [ALaunch; AKill; ATimer])) = [FINISHED].
 Proof. vm_compute. reflexivity. Qed.
 
-(* ... and holds when no KILL is handled while the timer is still armed *)
-Definition binv_strict (s : bst) (t : list out) : Prop :=
-  match core3 s with
-  | (false, a, tm) => a = false /\ tm = false /\ statuses t = []
-  | (true, true, true) => statuses t = []
-  | (true, false, true) => False
-  | (true, true, false) => statuses t = [RUNNING]
-  | (true, false, false) => statuses t = [RUNNING; FINISHED]
-  end.
-
-Lemma binv_strict_step b hook s t a s' o :
-  binv_strict s t -> (a = AKill -> b_timer s = false) ->
-  bstep b hook s a = (s', o) -> binv_strict s' (t ++ o).
-Proof.
-  intros HI HT HS. unfold binv_strict in *. rewrite statuses_app.
-  destruct a;
-  try (destruct (breq_core b hook s r) as [A B]);
-  try (destruct (breap_core s i) as [A B]);
-  destruct s as [la ac tm cmd ch pe bl cr]; unfold bstep in HS; cbn in HS, HI, HT;
-  (destruct cr; [inv HS; cbn; rewrite app_nil_r; exact HI|]);
-  try (inv HS; cbn; rewrite app_nil_r; exact HI).
-  - destruct la; inv HS; cbn; rewrite ?app_nil_r; [exact HI|].
-    destruct HI as (_ & _ & HI). exact HI.
-  - rewrite (HT eq_refl) in *.
-    destruct ac; inv HS; cbn; rewrite ?app_nil_r; [|exact HI].
-    destruct la; [|destruct HI; discriminate].
-    rewrite HI; reflexivity.
-  - rewrite HS in A, B. cbn in A, B. rewrite A, B, app_nil_r. exact HI.
-  - destruct tm; inv HS; cbn; rewrite ?app_nil_r; [|exact HI].
-    destruct la; [|destruct HI as (_ & HI & _); discriminate].
-    destruct ac; [|contradiction]. rewrite HI; reflexivity.
-  - destruct (nth_error ch i) as [[[] gc]|]; inv HS; cbn; rewrite app_nil_r; exact HI.
-  - rewrite HS in A, B. cbn in A, B. rewrite A, B, app_nil_r. exact HI.
-Qed.
-
-Lemma basic_one_terminal_gen b hook l : forall s t,
-  binv_strict s t ->
-  (forall l1 l2, l = l1 ++ AKill :: l2 -> b_timer (fst (brun b hook s l1)) = false) ->
-  binv_strict (fst (brun b hook s l)) (t ++ snd (brun b hook s l)).
-Proof.
-  induction l as [|a l IH]; intros s t HI HT; cbn.
-  - rewrite app_nil_r. exact HI.
-  - destruct (bstep b hook s a) as [s1 o1] eqn:E1.
-    assert (Ha : a = AKill -> b_timer s = false).
-    { intro; subst. exact (HT [] l eq_refl). }
-    pose proof (binv_strict_step _ _ _ _ _ _ _ HI Ha E1) as HI1.
-    specialize (IH s1 (t ++ o1) HI1).
-    destruct (brun b hook s1 l) as [s2 o2] eqn:E2. cbn in *. rewrite app_assoc. apply IH.
-    intros l1 l2 El. specialize (HT (a :: l1) l2). cbn in HT. rewrite E1 in HT.
-    subst l. specialize (HT eq_refl). destruct (brun b hook s1 l1); exact HT.
-Qed.
-
-Lemma basic_one_terminal_partial b hook l :
-  (forall l1 l2, l = l1 ++ AKill :: l2 -> b_timer (fst (brun b hook binit l1)) = false) ->
-  status_ok (statuses (snd (brun b hook binit l))) = true.
-Proof.
-  intro HT.
-  pose proof (basic_one_terminal_gen b hook l binit [] (ltac:(unfold binv_strict; cbn; auto)) HT) as HG.
-  rewrite app_nil_l in HG. unfold binv_strict in HG.
-  destruct (core3 (fst (brun b hook binit l))) as [[[] []] []];
-    try contradiction;
-    try (destruct HG as (_ & _ & HG));
-    rewrite HG; reflexivity.
-Qed.
-
-(* ---------- crashes and blocked handlers (basic / hook) ---------- *)
-(* with the nil test in ensureBasicTaskKilled, the only way to crash is a STOP handler that was
-   blocked on the full pending channel and is let through after KILL dropped the command handle *)
-Lemma stop_kill_part_cmd s i :
-  b_cmd s = Some i ->
-  has_crash (snd (stop_kill_part s)) = false /\ b_crashed (fst (stop_kill_part s)) = b_crashed s /\
-  b_blocked (fst (stop_kill_part s)) = b_blocked s.
-Proof.
-  intro Hc. unfold stop_kill_part. rewrite Hc.
-  destruct (nth_error (b_children s) i); [destruct (group_has_proc c)|]; cbn; auto.
-Qed.
-
-Lemma bstep_no_crash b hook s a s' o :
+(* ---------- no crash, no blocked handler (basic / hook) ---------- *)
+Lemma bstep_safe b hook s a s' o :
   b_crashed s = false -> b_blocked s = O -> bstep b hook s a = (s', o) ->
-  has_crash o = false /\ b_crashed s' = false.
+  has_crash o = false /\ b_crashed s' = false /\ b_blocked s' = O.
 Proof.
-  intros Hc Hb HS.
-  destruct s as [la ac tm cmd ch pe bl cr]. cbn in Hc, Hb. subst cr bl.
-  unfold bstep in HS; cbn in HS.
-  destruct a; try (inv HS; split; reflexivity).
-  - destruct la; inv HS; split; reflexivity.
-  - destruct ac; inv HS; split; reflexivity.
-  - unfold breq in HS; cbn in HS.
-    destruct ac; cbn in HS; [|inv HS; split; reflexivity].
-    destruct r; try (inv HS; split; reflexivity);
-      try (destruct hook; inv HS; split; reflexivity).
-    destruct hook; [inv HS; split; reflexivity|].
-    unfold stop_basic in HS; cbn in HS. try rewrite stop_guards_nil in HS.
-    destruct cmd as [i|]; [|inv HS; split; reflexivity].
-    destruct (nth_error ch i) as [[st gc]|] eqn:En; [|inv HS; split; reflexivity].
-    assert (HP : forall s0, b_cmd s0 = Some i -> b_crashed s0 = false ->
-                 has_crash (snd (stop_push s0)) = false /\ b_crashed (fst (stop_push s0)) = false).
-    { intros s0 H0 H1. unfold stop_push. destruct (b_pending s0) eqn:Ep.
-      - cbn. split; [reflexivity|exact H1].
-      - destruct (stop_kill_part_cmd (set_pending s0 (Some KILLED)) i H0) as (A & B & _).
-        rewrite B. split; [exact A|exact H1]. }
-    cbn in HS.
-    destruct st as [|d|[c|]]; try (inv HS; split; reflexivity);
-      match type of HS with stop_push ?x = _ =>
-        destruct (HP x eq_refl eq_refl) as [A B]; rewrite HS in A, B; split; assumption end.
-  - destruct tm; inv HS; split; reflexivity.
-  - destruct (nth_error ch i) as [[[] gc]|]; inv HS; split; reflexivity.
-  - unfold breap in HS; cbn in HS.
-    destruct (nth_error ch i) as [[[|d|d] gc]|]; try (inv HS; split; reflexivity).
-    cbn in HS. destruct pe; inv HS; split; reflexivity.
+  intros Hc Hb HS. unfold bstep in HS. rewrite Hc in HS.
+  destruct a; try solve [inv HS; auto].
+  - destruct (b_launched s); inv HS; auto.
+  - destruct (b_active s); [|inv HS; auto].
+    assert (HX : exists s1 o1, (if hook then (s, []) else ensure_killed s) = (s1, o1) /\
+                 b_blocked s1 = O /\ b_crashed s1 = false /\ has_crash o1 = false).
+    { destruct hook.
+      - exists s, []. auto.
+      - pose proof (ensure_killed_facts s) as HF. destruct (ensure_killed s) as [s1 o1]. exists s1, o1.
+        destruct HF as (_ & _ & C & _ & D). destruct (D Hc). rewrite C. auto. }
+    destruct HX as (s1 & o1 & E & A & B & C). rewrite E, B in HS. inv HS.
+    rewrite has_crash_app, C. cbn. auto.
+  - pose proof (breq_facts b hook s r) as HF. rewrite HS in HF.
+    destruct HF as (_ & _ & C & D). destruct (D Hc). rewrite C. auto.
+  - destruct (b_timer s); inv HS; auto.
+  - destruct (nth_error (b_children s) i) as [[[] gc]|]; inv HS; auto.
+  - pose proof (breap_facts s i) as HF. rewrite HS in HF.
+    destruct HF as (_ & _ & C & D). destruct (D Hc). rewrite C. auto.
 Qed.
 
-Lemma basic_no_crash_gen b hook l : forall s,
-  b_crashed s = false ->
-  (forall l1 l2, l = l1 ++ l2 -> b_blocked (fst (brun b hook s l1)) = O) ->
-  has_crash (snd (brun b hook s l)) = false /\ b_crashed (fst (brun b hook s l)) = false.
-Proof.
-  induction l as [|a l IH]; intros s Hc HB; cbn.
-  - split; [reflexivity|exact Hc].
-  - destruct (bstep b hook s a) as [s1 o1] eqn:E1.
-    pose proof (HB [] (a :: l) eq_refl) as Hb0. cbn in Hb0.
-    destruct (bstep_no_crash _ _ _ _ _ _ Hc Hb0 E1) as [Ho1 Hc1].
-    specialize (IH s1 Hc1).
-    destruct (brun b hook s1 l) as [s2 o2] eqn:E2. cbn in *.
-    rewrite has_crash_app, Ho1. cbn. apply IH.
-    intros l1 l2 El. specialize (HB (a :: l1) l2). cbn in HB. rewrite E1 in HB.
-    subst l. specialize (HB eq_refl). destruct (brun b hook s1 l1); exact HB.
-Qed.
-
-(* as long as no STOP handler blocks on the pending channel the executor does not crash *)
-Lemma basic_no_crash_partial b hook l :
-  (forall l1 l2, l = l1 ++ l2 -> b_blocked (fst (brun b hook binit l1)) = O) ->
-  has_crash (snd (brun b hook binit l)) = false /\ b_crashed (fst (brun b hook binit l)) = false.
-Proof. apply basic_no_crash_gen. reflexivity. Qed.
-
-(* hook tasks never block and never crash: STOP is a no-op for them *)
-Lemma hook_step_safe b s a s' o :
-  b_crashed s = false -> b_blocked s = O -> bstep b true s a = (s', o) -> b_blocked s' = O.
-Proof.
-  intros Hc Hb HS.
-  destruct s as [la ac tm cmd ch pe bl cr]. cbn in Hc, Hb. subst cr bl.
-  unfold bstep in HS; cbn in HS.
-  destruct a; try (inv HS; reflexivity).
-  - destruct la; inv HS; reflexivity.
-  - destruct ac; inv HS; reflexivity.
-  - unfold breq in HS; cbn in HS.
-    destruct ac; cbn in HS; [|inv HS; reflexivity].
-    destruct r; inv HS; reflexivity.
-  - destruct tm; inv HS; reflexivity.
-  - destruct (nth_error ch i) as [[[] gc]|]; inv HS; reflexivity.
-  - unfold breap in HS; cbn in HS.
-    destruct (nth_error ch i) as [[[|d|d] gc]|]; try (inv HS; reflexivity).
-    cbn in HS. destruct pe; inv HS; reflexivity.
-Qed.
-
-Lemma hook_never_blocks b l : forall s,
+Lemma basic_no_crash_no_hang b hook l : forall s,
   b_crashed s = false -> b_blocked s = O ->
-  b_blocked (fst (brun b true s l)) = O /\ has_crash (snd (brun b true s l)) = false.
+  has_crash (snd (brun b hook s l)) = false /\ b_crashed (fst (brun b hook s l)) = false /\
+  b_blocked (fst (brun b hook s l)) = O.
 Proof.
   induction l as [|a l IH]; intros s Hc Hb; cbn; [auto|].
-  destruct (bstep b true s a) as [s1 o1] eqn:E1.
-  destruct (bstep_no_crash _ _ _ _ _ _ Hc Hb E1) as [Ho1 Hc1].
-  pose proof (hook_step_safe _ _ _ _ _ Hc Hb E1) as Hb1.
-  specialize (IH s1 Hc1 Hb1). destruct (brun b true s1 l) as [s2 o2]. cbn in *.
+  destruct (bstep b hook s a) as [s1 o1] eqn:E1.
+  destruct (bstep_safe _ _ _ _ _ _ Hc Hb E1) as (Ho1 & Hc1 & Hb1).
+  specialize (IH s1 Hc1 Hb1). destruct (brun b hook s1 l) as [s2 o2]. cbn in *.
   rewrite has_crash_app, Ho1. exact IH.
 Qed.
 
-Lemma hook_no_crash b l :
-  has_crash (snd (brun b true binit l)) = false.
-Proof. apply (hook_never_blocks b l binit); reflexivity. Qed.
-
-(* the witnesses: a child that died by a signal leaves a stale final state behind at the next
-   STOP; the STOP of the next run then blocks for as long as that child lives (hang), and a KILL
-   in between makes the released handler dereference the dropped command handle (crash) *)
+(* the old witnesses of the hang (C17-d) and of the crash after it (C17-i): a child that died by a
+   signal, STOP, next run, STOP, KILL, the second child ends — every request is answered *)
 Definition sbeh : beh := mkBeh DSig false false true None false.
 Definition stuck_sched : list action :=
   [ALaunch; ATimer; AReq RStart; AExit 0; AReap 0; AReq RStop; AReq RStart; AReq RStop].
 
-Lemma basic_stop_hangs :
-  let '(s, t) := brun sbeh false binit stuck_sched in
-  b_blocked s = 1%nat /\ b_crashed s = false /\
-  nth_error (b_children s) 1 = Some (mkChild PRun false) /\
-  late_resps t = [true; false; true].     (* START, STOP, START answered; the second STOP is not *)
+Lemma basic_stop_after_signal_death :
+  let '(s, t) := brun sbeh false binit (stuck_sched ++ [AKill; AExit 1; AReap 1]) in
+  has_crash t = false /\ b_blocked s = O /\ b_pending s = None /\
+  late_resps t = [true; true; true; true] /\ existsb child_live (b_children s) = false.
 Proof. vm_compute. repeat split; reflexivity. Qed.
 
-Lemma basic_crash_after_blocked_stop :
-  has_crash (snd (brun sbeh false binit (stuck_sched ++ [AKill; AExit 1; AReap 1]))) = true.
-Proof. vm_compute. reflexivity. Qed.
-
-(* ---------- STOP of a basic task kills the whole process group ---------- *)
+(* ---------- STOP / KILL of a basic task kill the whole process group ---------- *)
 Lemma nth_error_upd {A} (l : list A) i x y :
   nth_error l i = Some y -> nth_error (upd i x l) i = Some x.
 Proof.
   revert i. induction l as [|z l IH]; intros [|i] H; cbn in *; try discriminate; auto.
 Qed.
 
-(* the repaired C17-a: the child is still running (or not yet reaped: ProcessState is nil) *)
-Lemma basic_stop_kills_group b s i c s' o :
-  b_crashed s = false -> b_active s = true -> b_pending s = None ->
-  b_cmd s = Some i -> nth_error (b_children s) i = Some c ->
-  (ch_st c = PRun \/ exists d, ch_st c = PZombie d) ->
-  bstep b false s (AReq RStop) = (s', o) ->
-  o = [OSig ToGroup KILL9; OResp RStop true] /\ b_crashed s' = false /\
-  b_pending s' = Some KILLED /\ b_blocked s' = b_blocked s /\
-  exists c', nth_error (b_children s') i = Some c' /\ child_live c' = false.
+Lemma child_live_kill_group c : child_live (kill_group c) = false.
+Proof. destruct c as [[] gc]; reflexivity. Qed.
+
+Lemma ensure_killed_kills s i c :
+  b_crashed s = false -> b_cmd s = Some i -> nth_error (b_children s) i = Some c ->
+  let '(s1, o) := ensure_killed s in
+  o = [OSig ToGroup KILL9] /\ nth_error (b_children s1) i = Some (kill_group c) /\
+  (b_pending s1 = b_pending s \/ (b_pending s = None /\ b_pending s1 = Some KILLED /\
+                                  match ch_st c with PReaped _ => False | _ => True end)).
 Proof.
-  intros Hc Ha Hp Hcmd Hn Hst HS.
-  destruct s as [la ac tm cmd ch pe bl cr]. cbn in Hc, Ha, Hp, Hcmd, Hn. subst cr ac pe cmd.
-  destruct c as [st gc]. cbn in Hst.
-  unfold bstep, breq, stop_basic, stop_push, stop_kill_part in HS; cbn in HS.
-  rewrite Hn in HS. cbn in HS.
-  destruct Hst as [->|[d ->]]; cbn in HS; rewrite ?Hn in HS; cbn in HS; inv HS; cbn;
-    repeat split; eexists; (split; [eapply nth_error_upd; exact Hn | reflexivity]).
+  intros Hc Hcmd Hn. unfold ensure_killed. rewrite Hcmd, Hn, stop_guards_nil.
+  pose proof (nth_error_upd (b_children s) i (kill_group c) c Hn) as HU.
+  destruct s as [la ac tm cmd ch pe bl cr]; cbn in *.
+  destruct (ch_st c), pe; cbn; auto 10.
 Qed.
 
-(* ... and its reaper then reports the posted state: a single event, not voluntary, KILLED *)
+(* STOP: whatever the child's state (running, exited but not reaped, reaped after exit or after a
+   signal), the group of the current command gets SIGKILL and the request is answered *)
+Lemma basic_stop_kills_group b s i c s' o :
+  b_crashed s = false -> b_active s = true ->
+  b_cmd s = Some i -> nth_error (b_children s) i = Some c ->
+  bstep b false s (AReq RStop) = (s', o) ->
+  o = [OSig ToGroup KILL9; OResp RStop true] /\ b_crashed s' = false /\ b_blocked s' = b_blocked s /\
+  exists c', nth_error (b_children s') i = Some c' /\ child_live c' = false.
+Proof.
+  intros Hc Ha Hcmd Hn HS.
+  unfold bstep, breq, stop_basic in HS. rewrite Hc, Ha in HS. cbn in HS.
+  pose proof (ensure_killed_kills s i c Hc Hcmd Hn) as HK.
+  pose proof (ensure_killed_facts s) as HF.
+  destruct (ensure_killed s) as [s1 o1]. destruct HK as (-> & HN & _).
+  destruct HF as (_ & _ & C & _ & D). destruct (D Hc) as [D1 _]. rewrite D1 in HS. inv HS.
+  repeat split; try assumption.
+  exists (kill_group c). split; [exact HN|apply child_live_kill_group].
+Qed.
+
+(* KILL of a basic task: the same, then the handle is dropped and TASK_FINISHED reported *)
+Lemma basic_kill_kills_group b s i c s' o :
+  b_crashed s = false -> b_active s = true ->
+  b_cmd s = Some i -> nth_error (b_children s) i = Some c ->
+  bstep b false s AKill = (s', o) ->
+  o = [OSig ToGroup KILL9; OStatus FINISHED] /\ b_crashed s' = false /\
+  b_active s' = false /\ b_timer s' = false /\
+  exists c', nth_error (b_children s') i = Some c' /\ child_live c' = false.
+Proof.
+  intros Hc Ha Hcmd Hn HS.
+  unfold bstep in HS. rewrite Hc, Ha in HS.
+  pose proof (ensure_killed_kills s i c Hc Hcmd Hn) as HK.
+  pose proof (ensure_killed_facts s) as HF.
+  destruct (ensure_killed s) as [s1 o1]. destruct HK as (-> & HN & _).
+  destruct HF as (_ & _ & C & _ & D). destruct (D Hc) as [D1 _]. rewrite D1 in HS. inv HS.
+  cbn. repeat split.
+  exists (kill_group c). split; [exact HN|apply child_live_kill_group].
+Qed.
+
+(* ... and the reaper of the killed child reports the posted state: one event, not voluntary, KILLED *)
 Lemma basic_reap_after_stop s i d gc s' o :
-  b_crashed s = false -> b_blocked s = O -> b_pending s = Some KILLED ->
+  b_pending s = Some KILLED ->
   nth_error (b_children s) i = Some (mkChild (PZombie d) gc) ->
   breap s i = (s', o) ->
   o = [OEvent false (exit_code d) KILLED] /\ b_pending s' = None.
 Proof.
-  intros Hc Hb Hp Hn HS. unfold breap in HS. rewrite Hn in HS. cbn in HS.
-  rewrite Hp, Hb in HS. inv HS. split; reflexivity.
+  intros Hp Hn HS. unfold breap in HS. rewrite Hn in HS. cbn in HS.
+  rewrite Hp in HS. inv HS. split; reflexivity.
 Qed.
 
-(* KILL of a basic or hook task never signals anything: the children are what they were *)
-Lemma basic_kill_leaves_children b hook s s' o :
-  bstep b hook s AKill = (s', o) -> b_children s' = b_children s /\ sigs o = [].
+(* KILL of a hook task still signals nothing (hooks may be triggered and run after KILL; they are
+   bounded by their own timeout): the children are what they were *)
+Lemma hook_kill_leaves_children b s s' o :
+  bstep b true s AKill = (s', o) -> b_children s' = b_children s /\ sigs o = [].
 Proof.
   unfold bstep. destruct (b_crashed s); [intro H; inv H; auto|].
   destruct (b_active s); intro H; inv H; auto.
 Qed.
-
-Lemma basic_kill_leaves_child_running :
-  let '(s, t) := brun nbeh false binit [ALaunch; ATimer; AReq RStart; AKill] in
-  statuses t = [RUNNING; FINISHED] /\ existsb child_live (b_children s) = true.
-Proof. vm_compute. split; reflexivity. Qed.
 
 Lemma hook_kill_leaves_child_running :
   let '(s, t) := brun nbeh true binit [ALaunch; ATimer; AReq RTrigger; AKill] in
   statuses t = [RUNNING; FINISHED] /\ existsb child_live (b_children s) = true.
 Proof. vm_compute. split; reflexivity. Qed.
 
-(* STOP after the main process has left (and was reaped): "already exited", nothing is signalled,
-   what the child had forked lives on *)
+(* the old witnesses of C17-b (basic) and C17-h: nothing survives *)
 Definition fkbeh : beh := mkBeh (DExit 0) false true true None false.
-Lemma basic_stop_leaves_forked_child :
-  let '(s, t) := brun fkbeh false binit [ALaunch; ATimer; AReq RStart; AExit 0; AReap 0; AReq RStop] in
-  sigs t = [] /\ late_resps t = [true; true] /\ existsb child_live (b_children s) = true.
-Proof. vm_compute. repeat split; reflexivity. Qed.
+Lemma basic_kill_and_late_stop_leave_nothing :
+  existsb child_live (b_children (fst (brun fkbeh false binit [ALaunch; ATimer; AReq RStart; AKill]))) = false /\
+  existsb child_live (b_children (fst (brun fkbeh false binit
+     [ALaunch; ATimer; AReq RStart; AExit 0; AReap 0; AReq RStop]))) = false.
+Proof. vm_compute. split; reflexivity. Qed.
